@@ -60,6 +60,10 @@ def tied_case(ctx, case, rng):
   from vf.props import c15
   kind = ['same_tensor', 'same_buffer', 'tied_embedding'][case % 3]
   k = 2 if kind == 'tied_embedding' else int(rng.integers(2, 4))
+  many = kind == 'same_tensor' and (case // 21) % 2 == 0
+  if many:
+    k = int(rng.integers(9, 13))        # many readers of one constant (consumer sets beyond 8 entries stop iterating in sorted order)
+    ctx.count('tied_constant_with_9_or_more_consumers')
   spec, consumers = c15.build(rng, kind, k)
   datasets = {s['key']: [gdata.sample(rng, s, 'normal') for _ in range(3)] for s in spec.signatures}
   ok, _ = common.admit(spec, datasets)
@@ -67,11 +71,19 @@ def tied_case(ctx, case, rng):
     return {'outcome': 'skipped', 'reason': 'generator_reject'}
   src = models.read(spec.content)
   pool = ['drq8_cw', 'drq8_tw', 'wo8a_cw', 'wo8s_tw', 'wo8s_cw', 'wo4s_cw', 'fp16', 'noq', None]
-  if rng.random() < 0.4:
+  if many or rng.random() < 0.4:
     # the same stored weights read in different compute modes (dynamic-range by one consumer, weight-only by another)
     pool = recipes.SAME_WEIGHT_FAMILIES[int(rng.integers(len(recipes.SAME_WEIGHT_FAMILIES)))]
     ctx.count('tied_same_weights_mixed_modes')
-  rules = [(re.escape(out), sel, str(c)) for (sel, out), c in zip(consumers, [pool[int(rng.integers(len(pool)))] for _ in consumers]) if c is not None]
+  picks = [pool[int(rng.integers(len(pool)))] for _ in consumers]
+  if many:
+    # a SMALL group of weight-only readers among many dynamic-range ones (consumer index sets of 2-4 small integers beyond 8 do not
+    # iterate in sorted order in CPython)
+    drq_name, wo_name = pool[0], pool[1]
+    picks = [drq_name] * len(consumers)
+    for i_ in rng.choice(len(consumers), size=int(rng.integers(2, 4)), replace=False):
+      picks[int(i_)] = wo_name
+  rules = [(re.escape(out), sel, str(c)) for (sel, out), c in zip(consumers, picks) if c is not None]
   if not rules:
     return {'outcome': 'skipped', 'reason': 'no_rule'}
   run = common.pipeline(spec, datasets, rules=rules)
